@@ -514,7 +514,8 @@ def st_arg(draw, cm, allow_decimal=False, allow_reduced=True, hour24=False):
         if any(t in (",f", ".f") for t in tform["toks"]):
             tv["frac"] = "%0*d" % (draw(st.integers(1, 6)),
                                    draw(st.integers(0, 9)))
-            tv["frac"] = draw(st.sampled_from(["5", "25", "125", "5", "75"]))
+            tv["frac"] = draw(st.sampled_from(["5", "25", "125", "5", "75",
+                                               "05", "0625"]))
             arg["frac"] = tv["frac"]
         text += "T" + F.encode_time(tform, tv)
         arg["texpr"] = tform["expr"]
